@@ -68,6 +68,7 @@ def r1_no_address_in_decisions(ctx):
 
 # ------------------------------------------------------------------ R2: set order
 SET, SETLIST = "set", "setlist"
+DOS, DOS_ITEMS, LOS = "dict-of-sets", "items-of-dict-of-sets", "list-of-setlists"
 
 
 class Kinds:
@@ -80,6 +81,7 @@ class Kinds:
         for p, k in param_kinds.items():
             self.events.setdefault(p, []).append((fi.node.lineno, k))
         self.rv = recv_name(fi) if fi.cls is not None else None
+        self.attr_dos = set()
 
     def kind_of_name(self, name, line):
         best = None
@@ -89,8 +91,44 @@ class Kinds:
         return best
 
     def kind(self, e, line):
+        k = self._kind(e, line)
+        return k
+
+    def lambda_filter_len1(self, fn):
+        """Does the predicate lambda require len(<its parameter>) == 1?"""
+        if not isinstance(fn, ast.Lambda) or not fn.args.args:
+            return False
+        p = fn.args.args[0].arg
+        return any(a[0] == "cmp" and a[1] == "Eq" and {src(a[2]), src(a[3])} == {f"len({p})", "1"} for a in atoms(fn.body))
+
+    def _kind(self, e, line):
         if isinstance(e, (ast.Set, ast.SetComp)):
             return SET
+        if isinstance(e, ast.Attribute) and self.rv and is_self_attr(e, selfname=self.rv) and e.attr in self.attr_dos:
+            return DOS
+        if isinstance(e, ast.Call) and isinstance(e.func, ast.Attribute) and e.func.attr == "items" and self.kind(e.func.value, line) == DOS:
+            return DOS_ITEMS
+        if isinstance(e, ast.Call) and call_name(e) in ("sorted", "list", "reversed", "tuple") and e.args and self.kind(e.args[0], line) in (DOS_ITEMS, LOS):
+            return self.kind(e.args[0], line)
+        if isinstance(e, ast.Call) and call_name(e) in ("itertools.takewhile", "takewhile", "filter", "itertools.dropwhile") and len(e.args) == 2 and self.kind(e.args[1], line) == LOS:
+            return None if self.lambda_filter_len1(e.args[0]) else LOS
+        if isinstance(e, (ast.ListComp, ast.GeneratorExp)):
+            g = e.generators[0]
+            ik = self.kind(g.iter, line)
+            if ik == DOS_ITEMS and isinstance(g.target, ast.Tuple) and len(g.target.elts) == 2 and isinstance(g.target.elts[1], ast.Name):
+                inner = Kinds.__new__(Kinds)
+                inner.__dict__.update(self.__dict__)
+                inner.events = dict(self.events)
+                inner.events[g.target.elts[1].id] = [(0, SET)]
+                ek = inner.kind(e.elt, line)
+                if ek in (SET, SETLIST):
+                    return LOS
+            if ik == LOS and isinstance(g.target, ast.Name):
+                return None
+        if isinstance(e, ast.Subscript) and isinstance(e.slice, ast.Slice) and self.kind(e.value, line) == LOS:
+            return LOS
+        if isinstance(e, ast.BinOp) and isinstance(e.op, ast.Add) and LOS in (self.kind(e.left, line), self.kind(e.right, line)):
+            return LOS
         if isinstance(e, ast.Name):
             return self.kind_of_name(e.id, line)
         if isinstance(e, ast.Attribute) and self.rv and is_self_attr(e, selfname=self.rv) and e.attr in self.attr_sets:
@@ -155,6 +193,22 @@ def _attr_sets(repo):
     return out
 
 
+def _attr_dos(repo):
+    out = {}
+    for c in repo.all_classes():
+        init = c.methods.get("__init__")
+        if init is None:
+            continue
+        names = set()
+        for n in ast.walk(init.node):
+            if isinstance(n, ast.Assign) and isinstance(n.value, ast.Call) and call_name(n.value) in ("defaultdict", "collections.defaultdict") and n.value.args and dotted(n.value.args[0]) == "set":
+                for t in n.targets:
+                    if isinstance(t, ast.Attribute):
+                        names.add(t.attr)
+        out[c.key] = names
+    return out
+
+
 def _guarded_by_len1(fnode, node, name):
     pm = parent_map(fnode)
     p = node
@@ -179,6 +233,7 @@ def set_order_sites(ctx):
     repo = ctx.repo
     cg = get_callgraph(ctx)
     attr_sets = _attr_sets(repo)
+    attr_dos = _attr_dos(repo)
     # one round of parameter flow: functions called with a set-typed argument
     param_kinds = {}
     funcs = list(repo.all_funcs())
@@ -186,6 +241,7 @@ def set_order_sites(ctx):
         changed = False
         for f in funcs:
             ks = Kinds(f, attr_sets.get(f.cls.key, set()) if f.cls else set(), param_kinds.get(f.key, {}))
+            ks.attr_dos = attr_dos.get(f.cls.key, set()) if f.cls else set()
             ks.scan()
             for c in ast.walk(f.node):
                 if not isinstance(c, ast.Call):
@@ -204,7 +260,36 @@ def set_order_sites(ctx):
     sites = []
     for f in funcs:
         ks = Kinds(f, attr_sets.get(f.cls.key, set()) if f.cls else set(), param_kinds.get(f.key, {}))
+        ks.attr_dos = attr_dos.get(f.cls.key, set()) if f.cls else set()
         ks.scan()
+        # elements of a list of set-ordered lists: comprehension / loop variables and predicate-lambda parameters
+        binders = []
+        comp_line = {}
+        for c in ast.walk(f.node):
+            if isinstance(c, (ast.ListComp, ast.SetComp, ast.GeneratorExp, ast.DictComp)):
+                for g in c.generators:
+                    comp_line[id(g)] = c.lineno
+        for n in ast.walk(f.node):
+            if isinstance(n, ast.comprehension):
+                line = comp_line.get(id(n), getattr(n.iter, "lineno", 0))
+                it = n.iter
+                if isinstance(it, ast.Call) and call_name(it) == "enumerate" and it.args:
+                    it = it.args[0]
+                    tgt = n.target.elts[-1] if isinstance(n.target, ast.Tuple) else None
+                else:
+                    tgt = n.target.elts[-1] if isinstance(n.target, ast.Tuple) else n.target
+                k = SETLIST if ks.kind(it, line) == LOS else None
+                for nm in [x.id for x in ast.walk(n.target) if isinstance(x, ast.Name)]:
+                    binders.append((line, nm, k if isinstance(tgt, ast.Name) and nm == tgt.id else None))
+            if isinstance(n, ast.Call) and len(n.args) == 2 and isinstance(n.args[0], ast.Lambda) and n.args[0].args.args:
+                k = SETLIST if call_name(n) in ("itertools.takewhile", "takewhile", "filter", "map", "itertools.dropwhile") and ks.kind(n.args[1], n.lineno) == LOS else None
+                binders.append((n.lineno, n.args[0].args.args[0].arg, k))
+        for line, nm, k in sorted(binders, key=lambda b: b[0]):
+            # a comprehension variable shadows whatever the name meant before
+            prev = ks.kind_of_name(nm, line)
+            if k is not None or prev is not None:
+                ks.events.setdefault(nm, []).append((line, k))
+                ks.events[nm].sort(key=lambda e: e[0])
         pm = parent_map(f.node)
         own = set()
         for st in all_stmts(f.node):
@@ -297,7 +382,15 @@ def r2_set_order(ctx):
     ctx.require(n >= 2, "the set-order inventory found fewer sites than the known ones (type tables, candidate set)")
 
 
+def r3_order_free_aggregates(ctx):
+    from .c10 import r2_any_dependent_member_wraps, r4_table_needs_disjoint_keys
+
+    r2_any_dependent_member_wraps(ctx)
+    r4_table_needs_disjoint_keys(ctx)
+
+
 RULES = [
+    ("C06.R3", "P1", r3_order_free_aggregates, "decisions about a rank are order-free aggregates (any over the rank; table only on disjoint keys)"),
     ("C06.R1", "P1", r1_no_address_in_decisions, "no address- or hash-derived value in a decision"),
     ("C06.R2", "P1", r2_set_order, "set order must not reach an order-sensitive consumer"),
 ]
